@@ -151,10 +151,22 @@ let eff_name e = match e with EffNone -> "none" | EffTokens -> "tok" | EffWebhoo
 let show (r : response) =
   Printf.sprintf "%s [%s] eff=%s" (dec_of_z r.r_status) (Stdlib.String.concat "," (Stdlib.List.map doc_name r.r_body)) (eff_name r.r_eff)
 
+(* which call sites are repaired in the tree under test: Http.current_fixes, unless the environment variable
+   VERIF_C16_FIXES overrides it (comma separated subset of byheight,common_empty,common_nil,webhook,verify,accget,
+   or "all" / "none") - used to check a scratch worktree with proposed fixes applied *)
+let fixes : fixes =
+  match Sys.getenv_opt "VERIF_C16_FIXES" with
+  | None -> current_fixes
+  | Some s ->
+    let l = split_on ',' (Stdlib.String.trim s) in
+    let on n = Stdlib.List.mem n l || Stdlib.List.mem "all" l in
+    { fx_byheight = on "byheight"; fx_common_empty = on "common_empty"; fx_common_nil = on "common_nil";
+      fx_webhook = on "webhook"; fx_verify = on "verify"; fx_accget = on "accget" }
+
 let model input =
   match parse input with
   | Unrouted -> "gin-3xx-4xx eff=none"
-  | Req (e, q, _, _) -> show (respond_current e q)
+  | Req (e, q, _, _) -> show (respond_gen fixes e q)
 
 (* observable -> response; None when it is not of the standard form *)
 let parse_obs obs : (response * bool) option =
